@@ -71,6 +71,17 @@ Example C07_star_absorbs_fixed :
 Proof. exact star_absorbs_fixed. Qed.
 Print Assumptions C07_star_absorbs_fixed.
 
+(* the self-import step of organize_imports (SelfImportVisitor + the till-dot renaming) is modelled
+   (organize_self in coq/C07/Renaming.v) and compared with rope on every case; the theorems above speak of
+   modules that do not import themselves (there organize_self is organize; the runner's [self_free]). *)
+Example C07_self_import_example :
+  option_map (fun r => (map s_info (fst r), snd r)) (organize_self w_lay w_prefs [n_m] self_used [] self_stmts)
+  = Some ([Normal [([n_la], None)]], [[n_g]; [n_la; n_x]]) /\
+  option_map (fun r => (map s_info (fst r), snd r)) (organize_self w_lay w_prefs [n_m] self_used_bare [] self_stmts)
+  = Some ([Normal [([n_m], None)]; Normal [([n_la], None)]], self_used_bare).
+Proof. exact self_import_example. Qed.
+Print Assumptions C07_self_import_example.
+
 (* ---- organize_imports: submodules stay loaded ------------------------------------------------------
    a dotted primary that is used and whose module is loaded by an un-aliased plain import (import a.b
    loads a and a.b) is still loaded by some plain import afterwards: an import used only through a
